@@ -447,6 +447,7 @@ pub fn generate(rng: &mut Rng, mode: Mode, form: Form) -> Graph {
         edges[from].push(to);
     }
 
+    let mut last_defines: Vec<usize> = Vec::new();
     // a dangling include: a leaf name that exists beside two or more other files but neither
     // beside the includer nor at the root - it must fail the same way every time
     let mut dangling: Option<(usize, String)> = None;
@@ -809,8 +810,27 @@ pub fn generate(rng: &mut Rng, mode: Mode, form: Form) -> Graph {
         }
         if rng.chance(1, 60) {
             text.push_str("/* a comment that never ends\n");
+        } else if i > 0 && rng.chance(1, 12) && text.ends_with('\n') {
+            // the file ends in a continued directive: backslash, line end, end of file
+            text.push_str(&format!("#define LAST_{i} {} \\\n", rng.range(1, 9)));
+            last_defines.push(i);
         }
         fs.files.insert(paths[i].clone(), text);
+    }
+
+    // uses of the defines that end files with a continued line
+    if !last_defines.is_empty()
+        && let Some(body) = fs.files.get_mut(&paths[0])
+    {
+        if !body.ends_with('\n') {
+            body.push('\n');
+        }
+        for i in &last_defines {
+            body.push_str(&match form {
+                Form::Pre => format!("m_0_last{i} LAST_{i} ;\n"),
+                Form::Compile => format!("#ifdef LAST_{i}\nstatic const int m_0_last{i} = LAST_{i} ;\n#endif\n"),
+            });
+        }
     }
 
     // `defined` that only appears through a macro written in an included file, used by the
